@@ -22,8 +22,7 @@ SleepOK(e) ==
   LET end == CtxEnd(e) IN
   IF e.d <= 0 THEN e.res = "nil" /\ e.t1 = e.t0                                   \* at once when d <= 0
   ELSE IF e.dl >= 0 /\ e.dl - e.t0 < e.d                                          \* deadline closer than d
-       THEN \/ e.res = "toosoon" /\ e.t1 = e.t0                                   \* ... DeadlineTooSoonError immediately
-            \/ e.res = "ctx" /\ end <= e.t0 /\ e.t1 = e.t0                        \* (a context that is already over may report that instead)
+       THEN e.res = "toosoon" /\ e.t1 = e.t0                                      \* ... DeadlineTooSoonError immediately (also when the context is already over)
        ELSE /\ e.res # "toosoon"                                                  \* ... and only then
             /\ \/ e.res = "nil" /\ e.t1 - e.t0 >= e.d /\ ~(end >= 0 /\ end < e.t0 + e.d)   \* nil only after at least d
                \/ e.res = "ctx" /\ end >= 0 /\ end <= e.t0 + e.d /\ e.t1 = (IF end > e.t0 THEN end ELSE e.t0)   \* the context ended first
